@@ -92,6 +92,10 @@ def cases(tier, seed):
     from mc import rebuild as RB
     for h in RB.histories(tier):
         yield {"history": h}
+    for e1, e2 in itertools.product(RB.inplace_edits(), repeat=2):
+        yield {"history": ["inplace", e1, e2]}
+    for a, b in itertools.permutations(RB.regroupings(), 2):
+        yield {"history": ["regroup", a, b]}
     # the constant offset handed over in every unit the Quantity class accepts (conversion constants of the reference are CODATA
     # values written here, compared at 1e-6)
     for kinds in (("S", "S"), ("E", "B", "E")):
@@ -193,6 +197,48 @@ def run_history(desc, seed):
     V = RB.variants()
     viol = {}
     nb = 0
+    if desc["history"][0] == "inplace":
+        # ONE model object and ONE term-list object; the list is edited in place between the constructions
+        basis = V["sho"]
+        edits = RB.inplace_edits()
+        for algo in ("qr", "Hopcroft-Karp"):
+            # one history per algorithm: the same model object and the same list object all along
+            ham = RB.ops_of(basis)
+            model = Model(list(basis), [])
+            for step, ed in enumerate([None] + list(desc["history"][1:])):
+                if ed is not None:
+                    edits[ed](ham)
+                ref = RB.dense_of_ops(basis, ham)
+                try:
+                    got = np.asarray(Mpo(model, ham, algo=algo).todense())
+                except Exception as e:
+                    sig = f"C01:history:inplace:exception:{type(e).__name__}"
+                    viol.setdefault(sig, {"sig": sig, "msg": f"history {desc['history']} step {step} ({algo}): {e!r}"})
+                    continue
+                nb += 1
+                if not close(got, ref, 1e-9):
+                    sig = f"C01:history:inplace:mismatch:{'first' if step == 0 else 'later'}-construction"
+                    viol.setdefault(sig, {"sig": sig, "msg": f"same model, same term list edited in place ({desc['history'][1:step + 1]}): construction {step + 1} ({algo}) differs from the dense sum of the CURRENT list by rel {rel_err(got, ref):.2e}"})
+        return {"nontrivial": nb >= 2, "counters": {"history_constructions": nb}, "outcome": f"history:{'viol' if viol else 'ok'}", "viol": list(viol.values()), "sample": {"desc": desc}}
+    if desc["history"][0] == "regroup":
+        # the SAME Op objects, first for one grouping of the dofs into sites, then for another
+        G = RB.regroupings()
+        terms = RB.regroup_terms()
+        for step, name in enumerate(desc["history"][1:]):
+            basis = G[name]
+            ref = RB.dense_of_ops(basis, terms)
+            for algo in ("qr", "Hopcroft-Karp"):
+                try:
+                    got = np.asarray(Mpo(Model(list(basis), []), terms, algo=algo).todense())
+                except Exception as e:
+                    sig = f"C01:history:regroup:exception:{type(e).__name__}:{'first' if step == 0 else 'later'}"
+                    viol.setdefault(sig, {"sig": sig, "msg": f"history {desc['history']} step {step} ({name}, {algo}): {e!r}"})
+                    continue
+                nb += 1
+                if not close(got, ref, 1e-9):
+                    sig = f"C01:history:regroup:mismatch:{'first' if step == 0 else 'later'}-construction"
+                    viol.setdefault(sig, {"sig": sig, "msg": f"the same Op objects used for {desc['history'][1:]}: construction {step + 1} ({name}, {algo}) differs from its dense reference by rel {rel_err(got, ref):.2e}"})
+        return {"nontrivial": nb >= 2, "counters": {"history_constructions": nb}, "outcome": f"history:{'viol' if viol else 'ok'}", "viol": list(viol.values()), "sample": {"desc": desc}}
     for step, name in enumerate(desc["history"]):
         basis = V[name]
         ref = RB.dense_of(basis)
